@@ -101,8 +101,10 @@ impl ClientHello {
 
 impl Default for ClientHello {
     fn default() -> Self {
-        const CAPABILITIES: &[Capability] =
-            &[Capability::Base(Base::V1_0), Capability::Base(Base::V1_1)];
+        // Only `:base:1.0` is advertised: the transports implement end-of-message framing only,
+        // whereas negotiating `:base:1.1` obliges both peers to switch to chunked framing
+        // (RFC 6242, section 4.1) after the `<hello>` exchange.
+        const CAPABILITIES: &[Capability] = &[Capability::Base(Base::V1_0)];
         Self::new(CAPABILITIES)
     }
 }
